@@ -379,7 +379,7 @@ func c17Scenarios() map[string]*sched.Scenario {
 			Setup: func() {
 				if c17Cache == nil {
 					var err error
-					c17Cache, err = cache.New(1<<20, 64)
+					c17Cache, err = cache.New(1<<12, 64)
 					if err != nil {
 						panic(err)
 					}
@@ -472,7 +472,7 @@ func c17Sequential(rep *common.Report) {
 	stop := common.Deadline(60*time.Second, 6*time.Minute)
 	capped := false
 	var err error
-	c17Cache, err = cache.New(1<<20, 64)
+	c17Cache, err = cache.New(1<<12, 64)
 	if err != nil {
 		panic(err)
 	}
